@@ -234,15 +234,51 @@ func c08Latest(e *Env) {
 		return
 	}
 	// live: result of currentStatus (socket) returned under != nil
+	// the live answer: the *Status obtained from the socket - result #0 of a helper
+	// that reaches the socket request, or of the status decoder applied to the
+	// request's answer when the request is made in place
 	var live ssa.Value
+	var liveErrs []ssa.Value // error results whose being non-nil means "the socket did not answer"
+	isSockReq := func(f *ssa.Function) bool { return ir.FuncName(f) == "(*internal/sock.Client).Request" }
 	for _, ci := range ir.CallsIn(fn, func(c *ssa.CallCommon) bool {
 		sc := c.StaticCallee()
-		return sc != nil && e.ReachesRepo(sc, func(f *ssa.Function) bool { return ir.FuncName(f) == "(*internal/sock.Client).Request" })
+		return sc != nil && (isSockReq(sc) || e.ReachesRepo(sc, isSockReq))
 	}) {
-		if v, ok := ci.(ssa.Value); ok {
-			for _, ref := range *v.Referrers() {
-				if ex, isE := ref.(*ssa.Extract); isE && ex.Index == 0 {
-					live = ex
+		v, ok := ci.(ssa.Value)
+		if !ok {
+			continue
+		}
+		var r0 ssa.Value
+		for _, ref := range *v.Referrers() {
+			if ex, isE := ref.(*ssa.Extract); isE {
+				if ex.Index == 0 {
+					r0 = ex
+				} else {
+					liveErrs = append(liveErrs, ex)
+				}
+			}
+		}
+		if r0 == nil {
+			continue
+		}
+		if strings.HasSuffix(ir.NamedType(r0.Type()), "model.Status") {
+			live = r0
+			continue
+		}
+		// the raw answer: followed into the decoder
+		for _, dc := range ir.CallsIn(fn, func(c *ssa.CallCommon) bool { return strings.HasSuffix(ir.CalleeName(c), "model.StatusFromJSON") }) {
+			if ir.Resolve(dc.Common().Args[0]) != r0 {
+				continue
+			}
+			if dv, isV := dc.(ssa.Value); isV {
+				for _, ref := range *dv.Referrers() {
+					if ex, isE := ref.(*ssa.Extract); isE {
+						if ex.Index == 0 {
+							live = ex
+						} else {
+							liveErrs = append(liveErrs, ex)
+						}
+					}
 				}
 			}
 		}
@@ -348,7 +384,22 @@ func c08Latest(e *Env) {
 	// the history is consulted only when the socket did not answer
 	okOrder := false
 	for _, ci := range ir.CallsIn(fn, reachesHist) {
-		if HasNilCmp(e.DCS(ci), func(x ssa.Value) bool { return ir.Resolve(x) == live }, false) {
+		// on every way to the history query the socket did not answer: the live status
+		// is nil, or the request / the decoding failed
+		all, n := true, 0
+		for _, way := range e.waysTo(ci) {
+			n++
+			noAnswer := hasNilCmp(way, func(x ssa.Value) bool { return ir.Resolve(x) == live }, false)
+			for _, ev := range liveErrs {
+				if hasNilCmp(way, func(x ssa.Value) bool { return ir.Resolve(x) == ev }, true) {
+					noAnswer = true
+				}
+			}
+			if !noAnswer {
+				all = false
+			}
+		}
+		if all && n > 0 {
 			okOrder = true
 		}
 	}
